@@ -1,0 +1,31 @@
+//go:build verif
+
+package routing
+
+import (
+	"lunar/engine/config"
+	"lunar/engine/runner"
+	"lunar/engine/services"
+	"lunar/engine/utils/writers"
+)
+
+// VerifNewPolicyModeManager builds a HandlingDataManager in policy mode from
+// parts the verification harness built through the real constructors
+// (config.BuildInitialFromFile, services.Initialize, runner.NewDiagnosisWorker),
+// without the syslog dial, the doctor and the fail-safe watcher of Setup.
+// routing.Handler and SetHandleRoutes work on it unchanged.
+func VerifNewPolicyModeManager(
+	build config.BuildResult,
+	policiesServices *services.PoliciesServices,
+	diagnosisWorker *runner.DiagnosisWorker,
+	writer writers.Writer,
+) *HandlingDataManager {
+	return &HandlingDataManager{ //nolint:exhaustruct
+		PoliciesData: PoliciesData{ //nolint:exhaustruct
+			diagnosisWorker:   diagnosisWorker,
+			configBuildResult: build,
+		},
+		writer:           writer,
+		policiesServices: policiesServices,
+	}
+}
